@@ -15,11 +15,11 @@ use std::cell::RefCell;
 pub const SPEC: PropSpec = PropSpec {
 	id: "C11",
 	level: "exploration",
-	rule: "case = (schema, byte string) where bytes are a valid encoding (random layout, over-long varints injected in half of the cases), a 1-3 byte mutation of one, or random bytes, always followed by a sentinel tail; the slice outcome (Ok value + bytes consumed, or Err) is the reference for every partition of the same bytes into BufRead refills: every constant chunk size 1..len when len <= 64, else {1,2,3,5,7,8,9,16,len-1,len}, plus irregular partitions; targets: typed Collect, deserialize_any, IgnoredAny; the same for single-object input; distinct by hash(schema shape, bytes, partition)",
+	rule: "case = (schema, byte string) where bytes are a valid encoding (random layout, over-long varints injected in half of the cases), a 1-3 byte mutation of one, or random bytes, always followed by a sentinel tail; the slice outcome (Ok value + bytes consumed, or Err) is the reference for every partition of the same bytes into BufRead refills: every constant chunk size 1..len when len <= 64, else {1,2,3,5,7,8,9,16,len-1,len}, plus irregular partitions; targets: typed Collect, deserialize_any, IgnoredAny; the same for single-object input; and for container files (1-7 values of very different sizes, reference writer's random block partition incl. empty blocks, all six codecs, one third damaged: null codec by a bit flip / truncation / deletion anywhere after the header, compressed codecs by truncation anywhere or a bit flip in a block's object count or sync marker): the slice reader's outcome (values delivered, then End or error) is the reference for BufReader capacities 1/7/8192 and 12 chunk schedules: same ending; same values when it ends cleanly; when it ends in an error the values delivered before it by one reader are a prefix of the other's (the slice reader sees a whole block before decoding it); distinct by hash(schema shape, bytes, partition)",
 	assumptions: &["equality of error text is not demanded, only Ok/Err, value and consumption"],
 	cases: (50_000_000, 4_000_000_000),
 	secs: (30, 600),
-	required: &["partitions_compared", "agree_ok", "agree_err", "overlong_varint_inputs", "single_object_compared"],
+	required: &["partitions_compared", "agree_ok", "agree_err", "overlong_varint_inputs", "single_object_compared", "container_partitions_compared", "container_intact_files", "container_damaged_files"],
 	run_case,
 	once: None,
 	panics_are_violations: true,
@@ -258,6 +258,176 @@ pub fn run_case(ctx: &mut Ctx, case_seed: u64) {
 				return;
 			}
 		}
+	}
+	if rng.chance(1, 3) {
+		container_case(ctx, case_seed, &mut rng, &rs);
+	}
+}
+
+/// Container files: the slice reader's sequence of per-call outcomes is the reference for streamed readers over the same bytes.
+fn container_case(ctx: &mut Ctx, case_seed: u64, rng: &mut Rng, rs: &RSchema) {
+	use crate::refavro::container as rc;
+	use crate::sutc::{read_file, Item, ReaderKind};
+	let mut vg = ValueGen::new(rs);
+	let n = 1 + rng.below(7);
+	let mut encs: Vec<Vec<u8>> = Vec::new();
+	// sizes vary a lot between values so that blocks grow and shrink along the file
+	for _ in 0..n {
+		vg.budget = *rng.pick(&[1, 5, 40, 200, 600]);
+		let v = vg.gen(rng);
+		let mut b = Vec::new();
+		let mut lay = Layout::random(rng);
+		if encode(rs, 0, &v, &mut lay, &mut b).is_err() {
+			return;
+		}
+		encs.push(b);
+	}
+	let codec = *rng.pick(&[rc::Codec::Null, rc::Codec::Null, rc::Codec::Deflate, rc::Codec::Snappy, rc::Codec::Zstandard, rc::Codec::Bzip2, rc::Codec::Xz]);
+	let mut sync = [0u8; 16];
+	for b in sync.iter_mut() {
+		*b = rng.next_u32() as u8;
+	}
+	let mut file = {
+		let mut o = rc::WriteOpts {
+			codec,
+			write_codec_key: codec != rc::Codec::Null || rng.coin(),
+			user_meta: vec![],
+			sync,
+			rng,
+			empty_blocks: true,
+		};
+		rc::write(&rs.spell(None).compact(), &encs, &mut o)
+	};
+	let damaged = rng.chance(1, 3);
+	if damaged && !file.is_empty() {
+		if codec == rc::Codec::Null {
+			// damage anywhere after the header so that the outcomes include errors
+			let lo = file.len() / 3;
+			match rng.below(3) {
+				0 => {
+					let k = lo + rng.below(file.len() - lo);
+					file[k] ^= 1 << rng.below(8);
+				}
+				1 => {
+					let k = lo + rng.below(file.len() - lo);
+					file.truncate(k);
+				}
+				_ => {
+					let k = lo + rng.below(file.len() - lo);
+					file.remove(k);
+				}
+			}
+		} else {
+			// compressed blocks: what a decompression library makes of a corrupt stream fed in one piece or in many is that
+			// library's business (observed: libzstd's one-shot path rejects a wrong frame content size that its streaming path accepts),
+			// so the damage stays in what the crate itself interprets: object counts, sync markers, and truncation anywhere
+			let blocks = match rc::parse(&file) {
+				Ok(o) => o.blocks,
+				Err(_) => return,
+			};
+			if blocks.is_empty() || rng.chance(1, 3) {
+				let lo = file.len() / 3;
+				let k = lo + rng.below(file.len() - lo);
+				file.truncate(k);
+			} else {
+				let b = rng.pick(&blocks).clone();
+				let (lo, hi) = if rng.coin() { (b.offs[0], b.offs[1]) } else { (b.offs[3], b.offs[4]) };
+				if hi <= lo {
+					return;
+				}
+				let k = lo + rng.below(hi - lo);
+				file[k] ^= 1 << rng.below(7);
+			}
+		}
+	}
+	if file.len() > 60_000 {
+		return;
+	}
+	let mo = ModeOwned::random(rng);
+	let max_calls = 64;
+	let show = |r: &Result<(Vec<Item>, String), String>| -> Vec<String> {
+		match r {
+			Err(_) => vec!["open-failed".into()],
+			Ok((items, _)) => items
+				.iter()
+				.map(|i| match i {
+					Item::Val(v) => format!("{v:?}"),
+					Item::Err(_) => "Err".into(),
+					Item::End => "End".into(),
+				})
+				.collect(),
+		}
+	};
+	let reference = read_file(&file, rs, &ReaderKind::Slice, &mo, max_calls);
+	let ref_shown = show(&reference);
+	let mut kinds: Vec<ReaderKind> = vec![ReaderKind::BufReader(1), ReaderKind::BufReader(7), ReaderKind::BufReader(8192)];
+	for k in [1usize, 2, 3, 5, 16, 64] {
+		kinds.push(ReaderKind::Chunked(vec![k]));
+	}
+	for _ in 0..6 {
+		kinds.push(ReaderKind::Chunked(crate::io::schedule(rng, file.len())));
+	}
+	for kind in kinds {
+		let got = read_file(&file, rs, &kind, &mo, max_calls);
+		let got_shown = show(&got);
+		ctx.count("container_partitions_compared");
+		// outcome of reading a file = the values delivered, then how it ended (End, or an error).
+		// Both readers must end the same way; when the file ends cleanly they must have delivered the same values; when it ends in an
+		// error, the values one delivered before reporting it must be a prefix of the other's (the slice reader sees a whole block
+		// before decoding any of it, a stream reader meets the damage only when it gets there - both report an error for the file).
+		let split = |v: &Vec<String>| -> (Vec<String>, String) {
+			let k = v.iter().position(|x| x == "Err" || x == "End" || x == "open-failed").unwrap_or(v.len());
+			(v[..k].to_vec(), v.get(k).cloned().unwrap_or_else(|| "call-cap".into()))
+		};
+		let (va, ta) = split(&ref_shown);
+		let (vb, tb) = split(&got_shown);
+		if ta == "call-cap" || tb == "call-cap" {
+			// a damaged count can promise more values than this monitor is willing to pull
+			ctx.inconclusive += 1;
+			continue;
+		}
+		let same = if ta != tb {
+			false
+		} else if ta == "Err" {
+			let k = va.len().min(vb.len());
+			va[..k] == vb[..k]
+		} else {
+			va == vb
+		};
+		if same && va.len() != vb.len() {
+			ctx.count("container_error_reported_after_different_number_of_values");
+		}
+		if !same {
+			let first = ref_shown.iter().zip(got_shown.iter()).position(|(a, b)| a != b).unwrap_or(ref_shown.len().min(got_shown.len()));
+			let class = if ta != tb {
+				format!("ends-differ slice={ta} reader={tb}")
+			} else {
+				"different-value".to_owned()
+			};
+			ctx.violation(
+				format!("container slice-vs-reader {class} codec={} damaged={damaged}", codec.name()),
+				case_seed,
+				json!({"schema": rs.spell(None).compact(), "file": hex_full(&file), "reader": format!("{kind:?}"), "target": mo.describe(), "first_differing_call": first,
+					"slice_outcomes": ref_shown.iter().map(|s| s.chars().take(120).collect::<String>()).collect::<Vec<_>>(),
+					"reader_outcomes": got_shown.iter().map(|s| s.chars().take(120).collect::<String>()).collect::<Vec<_>>(),
+					"slice_errors": reference.as_ref().ok().map(|g| g.0.iter().filter_map(|i| if let Item::Err(e) = i { Some(e.clone()) } else { None }).collect::<Vec<_>>()),
+					"reader_errors": got.as_ref().ok().map(|g| g.0.iter().filter_map(|i| if let Item::Err(e) = i { Some(e.clone()) } else { None }).collect::<Vec<_>>())}),
+			);
+			return;
+		}
+	}
+	if !damaged {
+		ctx.count("container_intact_files");
+		if ref_shown.iter().filter(|s| *s != "End" && *s != "Err" && *s != "open-failed").count() != n {
+			// an intact reference-written file must give back all n values (C06 decides their content)
+			ctx.violation(
+				format!("container intact-file-slice-reader-short codec={}", codec.name()),
+				case_seed,
+				json!({"schema": rs.spell(None).compact(), "file": hex_full(&file), "values_written": n, "slice_outcomes": ref_shown.iter().map(|s| s.chars().take(120).collect::<String>()).collect::<Vec<_>>()}),
+			);
+		}
+	} else {
+		ctx.count("container_damaged_files");
 	}
 }
 
